@@ -1,23 +1,35 @@
 /-
-  SOURCE TIE, CVSS4: the hand-written model `Cvss.Model.V4` equals the translation of cvss/cvss4.py's
-  `m`, `macroVector`, `get_value_description` and of the literal tables inside `compute_base_score`
-  (`*_levels`, `step`, which table each severity distance reads) that `tools/gen_code.py` regenerates
-  from the SOURCE TEXT on every run (`Cvss.Gen.Code4`).  Every theorem declared directly in this
-  namespace is an obligation.
+  SOURCE TIE, CVSS4: the hand-written model `Cvss.Model.V4` equals the translation of cvss/cvss4.py that
+  `tools/gen_code.py` regenerates from the SOURCE TEXT on every run (`Cvss.Gen.Code4`): `parse_vector`,
+  `check_mandatory`, `add_missing_optional` (with their exception classes), `m`, `macroVector`,
+  `compute_severity`, `get_value_description`, `clean_vector`, and the literal tables inside
+  `compute_base_score` (`*_levels`, `step`, which table each severity distance reads).  The arithmetic of
+  `compute_base_score` itself is outside the translator's subset and is tied by correspondence alone.
+  Translated code runs in `Py.M = Except Py.Exc`.  Every theorem declared directly in this namespace is
+  an obligation.
 -/
 import Cvss.Py
 import Cvss.Gen.Code4
+import Cvss.Model.Json
 import Cvss.Model.V4
 namespace Cvss.Props.CodeTie4
 open Cvss Cvss.Gen
 
 namespace Aux
 
+theorem ok_bind {ε α β : Type} (a : α) (f : α → Except ε β) : (Except.ok a >>= f) = f a := rfl
+theorem error_bind {ε α β : Type} (e : ε) (f : α → Except ε β) :
+    ((Except.error e : Except ε α) >>= f) = .error e := rfl
+theorem pure_ok {ε α : Type} (a : α) : (pure a : Except ε α) = .ok a := rfl
+theorem toOption_bind {ε α β : Type} (x : Except ε α) (f : α → Except ε β) :
+    (x >>= f).toOption = x.toOption.bind (fun a => (f a).toOption) := by
+  cases x <;> rfl
+
 theorem levels_tables_eq : Code4.levels = Model.V4.levels := by
   decide +kernel
 
-theorem ite_some_some {α : Type} (c : Prop) [Decidable c] (a b : α) :
-    (if c then some a else some b) = some (if c then a else b) := by
+theorem ite_ok_ok {ε α : Type} (c : Prop) [Decidable c] (a b : α) :
+    (if c then (Except.ok a : Except ε α) else .ok b) = .ok (if c then a else b) := by
   split <;> rfl
 
 theorem app6 {a1 a2 a3 a4 a5 a6 : Str} {n1 n2 n3 n4 n5 n6 : Nat}
@@ -35,11 +47,11 @@ end Aux
 
 /-- `m(metric)`: the effective value (never raises) -/
 theorem m_eq (self : Code4.Self) (k : Str) :
-    Code4.m self k = some (Model.V4.mEff self.metrics k) := by
+    Code4.m self k = .ok (Model.V4.mEff self.metrics k) := by
   unfold Code4.m Model.V4.mEff
   delta Model.V4.X
-  simp only [Py.get?, Py.contains, Py.getitem, hasKey, List.cons_append, List.nil_append,
-    bind, pure]
+  simp only [Py.get?, Py.contains, hasKey, List.cons_append, List.nil_append,
+    Aux.pure_ok]
   by_cases h1 : k = ['E'] ∧ lookup k self.metrics = some ['X']
   · simp only [if_pos h1]
   by_cases h2 : k = ['C', 'R'] ∧ lookup k self.metrics = some ['X']
@@ -49,19 +61,18 @@ theorem m_eq (self : Code4.Self) (k : Str) :
   by_cases h4 : k = ['A', 'R'] ∧ lookup k self.metrics = some ['X']
   · simp only [if_neg h1, if_neg h2, if_neg h3, if_pos h4]
   simp only [if_neg h1, if_neg h2, if_neg h3, if_neg h4]
-  cases hM : lookup ('M' :: k) self.metrics with
-  | none => simp
-  | some ms =>
-    simp only [Option.isSome_some, if_true, Option.bind]
+  rcases Option.eq_none_or_eq_some (lookup ('M' :: k) self.metrics) with hM | ⟨ms, hM⟩
+  · simp [hM]
+  · simp only [Option.isSome_some, if_true, Py.getitem, hM, Aux.ok_bind]
     by_cases hx : ms = ['X'] <;> simp [hx]
 
 /-- `macroVector()`: whenever the model produces six digits, the translated source returns exactly
     that six-character key (the model's `none` stands for a string containing "None") -/
 theorem macroVector_eq (self : Code4.Self) (d : List Nat)
     (h : Model.V4.macroVector self.metrics = some d) :
-    Code4.macroVector self = some (Model.V4.mvKey d) := by
+    Code4.macroVector self = .ok (Model.V4.mvKey d) := by
   unfold Code4.macroVector
-  simp only [m_eq, bind, Option.bind, pure, Aux.ite_some_some]
+  simp only [m_eq, Aux.ok_bind, Aux.pure_ok, Aux.ite_ok_ok]
   unfold Model.V4.macroVector at h
   simp only [] at h
   split at h
@@ -105,9 +116,9 @@ theorem macroVector_eq (self : Code4.Self) (d : List Nat)
     the letter 'N' (of "None") -/
 theorem macroVector_none (self : Code4.Self)
     (h : Model.V4.macroVector self.metrics = none) :
-    ∃ s, Code4.macroVector self = some s ∧ 'N' ∈ s := by
+    ∃ s, Code4.macroVector self = .ok s ∧ 'N' ∈ s := by
   unfold Code4.macroVector
-  simp only [m_eq, bind, Option.bind, pure, Aux.ite_some_some]
+  simp only [m_eq, Aux.ok_bind, Aux.pure_ok, Aux.ite_ok_ok]
   refine ⟨_, rfl, ?_⟩
   unfold Model.V4.macroVector at h
   simp only [] at h
@@ -122,38 +133,29 @@ theorem macroVector_none (self : Code4.Self)
   · exact absurd h (by simp)
 
 theorem get_value_description_eq (self : Code4.Self) (a : Str) :
-    Code4.get_value_description self a = Model.V4.getDescription self.metrics a := by
+    (Code4.get_value_description self a).toOption = Model.V4.getDescription self.metrics a := by
   unfold Code4.get_value_description Model.V4.getDescription
-  simp only [Py.getD, Py.getitem, Model.V4.X, bind, pure]
+  simp only [Py.getD, Py.getitem, Model.V4.X, Aux.pure_ok]
   cases lookup a Gen.V4.valueNames with
   | none => rfl
   | some row =>
-    simp only [Option.bind]
+    simp only [Aux.ok_bind]
     cases lookup ((lookup a self.metrics).getD ['X']) row <;> rfl
-
-/-- the literal `*_levels` tables: same look-ups (entry order inside a dict literal is irrelevant) -/
-theorem levels_eq (k v : Str) :
-    (lookup k Code4.levels).bind (lookup v) = (lookup k Model.V4.levels).bind (lookup v) := by
-  rw [Aux.levels_tables_eq]
-
-theorem levels_keys_perm : (keys Code4.levels).Perm (keys Model.V4.levels) := by
-  have : keys Code4.levels = keys Model.V4.levels := by
-    simp [keys, Code4.levels, Model.V4.levels]
-  rw [this]
-
-theorem step_eq : Code4.step = Model.V4.r 1 10 := rfl
-
-/-- every one of the 14 severity distances is `X_levels[m(X)] - X_levels[max vector's X]` with the
-    metric's own table, in the model's order -/
-theorem distMetrics_eq : Code4.distMetrics = Model.V4.distMetrics := rfl
-
 
 namespace Aux
 
 theorem fmt2 (a b : Str) : Py.format c!"{0}:{1}" [a, b] = a ++ ':' :: b := by
   simp [Py.format, Py.formatAux, Py.fmtField]
 
-def cleanBody (m : List (Str × Str)) (nd : Str) : List Str → Str → Option (List Str) :=
+theorem getitem_some {β : Type} {k : Str} {d : List (Str × β)} {v : β} (h : lookup k d = some v) :
+    Py.getitem k d = .ok v := by
+  simp [Py.getitem, h]
+
+theorem getitem_none {β : Type} {k : Str} {d : List (Str × β)} (h : lookup k d = none) :
+    (Py.getitem k d : Py.M β) = .error .keyError := by
+  simp [Py.getitem, h]
+
+def cleanBody (m : List (Str × Str)) (nd : Str) : List Str → Str → Py.M (List Str) :=
   fun (st : (List Str)) (metric : Str) => (do
       let vector := st
       let vector ← (if (Py.contains metric m = true) then (do
@@ -174,30 +176,359 @@ def cleanF (m : List (Str × Str)) (nd : Str) : Str → Option Str :=
     | none => none
 
 theorem clean_step (m : List (Str × Str)) (nd : Str) (k : Str) (acc : List Str) :
-    cleanBody m nd acc k = some (acc ++ (cleanF m nd k).toList) := by
+    cleanBody m nd acc k = .ok (acc ++ (cleanF m nd k).toList) := by
   unfold cleanBody cleanF
-  simp only [Py.contains, hasKey, Py.getitem]
-  cases h : lookup k m with
-  | none => simp
-  | some v =>
-    by_cases hv : v = nd
-    · simp [hv]
-    · simp [hv, fmt2]
+  simp only [Py.contains, hasKey]
+  rcases Option.eq_none_or_eq_some (lookup k m) with h | ⟨v, h⟩
+  · simp [h, pure_ok]
+  · by_cases hv : v = nd
+    · simp [h, getitem_some h, hv, pure_ok, ok_bind]
+    · simp [h, getitem_some h, hv, fmt2, pure_ok, ok_bind]
 
 theorem clean_fold (m : List (Str × Str)) (nd : Str) (l : List Str) (acc : List Str) :
-    List.foldlM (cleanBody m nd) acc l = some (acc ++ l.filterMap (cleanF m nd)) := by
+    List.foldlM (cleanBody m nd) acc l = .ok (acc ++ l.filterMap (cleanF m nd)) := by
   induction l generalizing acc with
-  | nil => simp [List.foldlM]
+  | nil => simp [List.foldlM, pure_ok]
   | cons k l ih =>
     rw [List.foldlM_cons, clean_step]
-    simp only [Option.bind_eq_bind, Option.bind_some, ih, List.filterMap_cons]
+    simp only [ok_bind, ih, List.filterMap_cons]
     cases cleanF m nd k <;> simp
+
+def mandBody (m : List (Str × Str)) : List Str → Str → Py.M (List Str) :=
+  fun (st : (List Str)) (mandatory_metric : Str) => (do
+    let missing := st
+    let missing ← (if (¬ (Py.contains mandatory_metric m = true)) then (do
+        let missing : List Str := missing ++ [mandatory_metric]
+        pure missing) else (do
+        pure missing))
+    pure missing)
+
+theorem mand_step (m : List (Str × Str)) (k : Str) (acc : List Str) :
+    mandBody m acc k = .ok (if hasKey k m then acc else acc ++ [k]) := by
+  unfold mandBody
+  by_cases hk : hasKey k m = true <;> simp [hk, pure_ok]
+
+theorem mand_fold (m : List (Str × Str)) (l : List Str) (acc : List Str) :
+    List.foldlM (mandBody m) acc l = .ok (acc ++ l.filter (fun k => !hasKey k m)) := by
+  induction l generalizing acc with
+  | nil => simp [List.foldlM, pure_ok]
+  | cons k l ih =>
+    rw [List.foldlM_cons, mand_step, ok_bind, ih]
+    by_cases hk : hasKey k m = true <;> simp [hk]
+
+
+/-! ### `add_missing_optional` -/
+
+def modBody : Code4.Self → Str → Py.M Code4.Self :=
+  fun (st : Code4.Self) (abbreviation : Str) => (do
+    let self := st
+    let b2 ← (do
+        if (¬ (Py.contains abbreviation self.metrics = true)) then pure true else (do
+            let t1 ← Py.getitem abbreviation self.metrics
+            pure (decide (t1 = c!"X"))))
+    let self ← (if (b2 = true) then (do
+        let t3 ← Py.getitem (List.drop 1 abbreviation) self.metrics
+        let self : Code4.Self := { self with metrics := Py.setitem abbreviation t3 self.metrics }
+        pure self) else (do
+        pure self))
+    pure self)
+
+def defBody : Code4.Self → Str → Py.M Code4.Self :=
+  fun (st : Code4.Self) (abbreviation : Str) => (do
+    let self := st
+    let self ← (if (¬ (Py.contains abbreviation self.metrics = true)) then (do
+        let self : Code4.Self := { self with metrics := Py.setitem abbreviation c!"X" self.metrics }
+        pure self) else (do
+        pure self))
+    pure self)
+
+def needs (m : List (Str × Str)) (a : Str) : Bool :=
+  match lookup a m with
+  | some v => decide (v = Model.V4.X)
+  | none => true
+
+theorem mod_step (st : Code4.Self) (a : Str) :
+    (modBody st a).toOption =
+      if needs st.metrics a = true then
+        (lookup (a.drop 1) st.metrics).map (fun b => { st with metrics := insert a b st.metrics })
+      else some st := by
+  unfold modBody needs
+  simp only [Py.contains, hasKey, Model.V4.X]
+  generalize List.drop 1 a = a'
+  rcases Option.eq_none_or_eq_some (lookup a st.metrics) with h | ⟨v, h⟩
+  · rcases Option.eq_none_or_eq_some (lookup a' st.metrics) with h' | ⟨b, h'⟩
+    · simp [h, h', getitem_none h', pure_ok, ok_bind, error_bind, Except.toOption]
+    · simp [h, h', getitem_some h', pure_ok, ok_bind, Except.toOption]
+  · by_cases hv : v = ['X']
+    · rcases Option.eq_none_or_eq_some (lookup a' st.metrics) with h' | ⟨b, h'⟩
+      · simp [h, hv, h', getitem_some h, getitem_none h', pure_ok, ok_bind, error_bind, Except.toOption]
+      · simp [h, hv, h', getitem_some h, getitem_some h', pure_ok, ok_bind, Except.toOption]
+    · simp [h, hv, getitem_some h, pure_ok, ok_bind, Except.toOption]
+
+theorem fillModified_cons (m : List (Str × Str)) (a : Str) (rest : List Str) :
+    Model.V4.fillModified m (a :: rest) =
+      if needs m a = true then
+        (lookup (a.drop 1) m).bind (fun b => Model.V4.fillModified (insert a b m) rest)
+      else Model.V4.fillModified m rest := by
+  have h : Model.V4.fillModified m (a :: rest) =
+      if needs m a = true then
+        (match lookup (a.drop 1) m with
+          | none => none
+          | some b => Model.V4.fillModified (insert a b m) rest)
+      else Model.V4.fillModified m rest := rfl
+  rw [h]
+  cases lookup (a.drop 1) m <;> rfl
+
+theorem mod_fold (l : List Str) (st : Code4.Self) :
+    (List.foldlM modBody st l).toOption =
+      (Model.V4.fillModified st.metrics l).map (fun m => { st with metrics := m }) := by
+  induction l generalizing st with
+  | nil => simp [List.foldlM, pure_ok, Except.toOption, Model.V4.fillModified]
+  | cons a l ih =>
+    rw [List.foldlM_cons, toOption_bind, mod_step, fillModified_cons]
+    simp only [ih]
+    by_cases hn : needs st.metrics a = true
+    · simp only [hn, if_true]
+      cases lookup (List.drop 1 a) st.metrics <;> rfl
+    · simp only [hn, Bool.false_eq_true, if_false]
+      rfl
+
+theorem def_step (st : Code4.Self) (a : Str) :
+    defBody st a = .ok (if hasKey a st.metrics then st else
+      { st with metrics := insert a Model.V4.X st.metrics }) := by
+  unfold defBody
+  by_cases hk : hasKey a st.metrics = true <;> simp [hk, pure_ok, Model.V4.X]
+
+theorem def_fold (l : List Str) (st : Code4.Self) :
+    List.foldlM defBody st l = .ok { st with metrics := Model.V4.fillDefaults st.metrics l } := by
+  induction l generalizing st with
+  | nil => simp [List.foldlM, pure_ok, Model.V4.fillDefaults]
+  | cons a l ih =>
+    rw [List.foldlM_cons, def_step, ok_bind, ih]
+    simp only [Model.V4.fillDefaults]
+    by_cases hk : hasKey a st.metrics = true <;> simp [hk]
+
+
+/-! ### `parse_vector` -/
+
+theorem lookup_legal (k : Str) (l : List (Str × List (Str × Str))) :
+    lookup k (l.map (fun x => (x.fst, keys x.snd))) = (lookup k l).map keys := by
+  induction l with
+  | nil => rfl
+  | cons p r ih =>
+    obtain ⟨a, b⟩ := p
+    simp only [List.map_cons, lookup, ih]
+    split <;> rfl
+
+theorem mem_keys_iff {β : Type} (v : Str) (row : List (Str × β)) :
+    v ∈ keys row ↔ hasKey v row = true := by
+  induction row with
+  | nil => simp [keys, hasKey, lookup]
+  | cons p r ih =>
+    obtain ⟨a, b⟩ := p
+    simp only [keys, List.map_cons, List.mem_cons, hasKey, lookup] at ih ⊢
+    by_cases h : v = a
+    · simp [h]
+    · simp [h, ih]
+
+theorem insert_absent {β : Type} (k : Str) (v : β) (l : List (Str × β)) (h : hasKey k l = false) :
+    insert k v l = l ++ [(k, v)] := by
+  induction l with
+  | nil => rfl
+  | cons p r ih =>
+    obtain ⟨a, b⟩ := p
+    simp only [hasKey, lookup] at h ih
+    by_cases hk : k = a
+    · simp [hk] at h
+    · simp only [hk, if_false] at h
+      simp [insert, hk, ih h]
+
+def parseBody : Code4.Self → Str → Py.M Code4.Self :=
+  fun (st : Code4.Self) (field : Str) => (do
+    let self := st
+    let () ← (if (field = c!"") then (do
+        Py.raise .malformed) else (do
+        pure ()))
+    let (metric, value_) ← Py.tryExcept (do
+        let (metric, value_) ← Py.unpack2 (splitOn ':' field)
+        pure (metric, value_)) .valueError (do
+        Py.raise .malformed)
+    let () ← (if (Py.contains metric self.metrics = true) then (do
+        Py.raise .malformed) else (do
+        pure ()))
+    let () ← (if (¬ (Py.contains metric Gen.V4.valueNames = true)) then (do
+        Py.raise .malformed) else (do
+        pure ()))
+    let t1 ← Py.getitem metric Gen.V4.valueNames
+    let () ← (if (¬ (Py.contains value_ t1 = true)) then (do
+        Py.raise .malformed) else (do
+        pure ()))
+    let self : Code4.Self := { self with metrics := Py.setitem metric value_ self.metrics }
+    pure self)
+
+theorem parse_step (st : Code4.Self) (f : Str) :
+    (parseBody st f).mapError Py.Exc.toErr =
+      (Model.parseField Model.V4.tables st.metrics f).map (fun m => { st with metrics := m }) := by
+  unfold parseBody Model.parseField
+  by_cases hf : f = []
+  · simp [hf, Py.raise, error_bind, Except.mapError, Except.map, Py.Exc.toErr]
+  simp only [hf, if_false, pure_ok, ok_bind]
+  generalize splitOn ':' f = L
+  rcases L with _ | ⟨m, _ | ⟨v, _ | ⟨w, r⟩⟩⟩
+  · simp [Py.unpack2, Py.tryExcept, Py.raise, error_bind, Except.mapError, Except.map, Py.Exc.toErr]
+  · simp [Py.unpack2, Py.tryExcept, Py.raise, error_bind, Except.mapError, Except.map, Py.Exc.toErr]
+  · simp only [Py.unpack2, Py.tryExcept, ok_bind, Model.V4.tables, Py.contains, if_true]
+    rw [lookup_legal]
+    by_cases hd : hasKey m st.metrics = true
+    · simp [hd, Py.raise, error_bind, Except.mapError, Except.map, Py.Exc.toErr]
+    simp only [hd, Bool.false_eq_true, if_false, ok_bind]
+    rcases Option.eq_none_or_eq_some (lookup m Gen.V4.valueNames) with hl | ⟨row, hl⟩
+    · simp [hasKey, hl, Py.raise, error_bind, Except.mapError, Except.map, Py.Exc.toErr]
+    simp only [hasKey, hl, getitem_some hl, Option.isSome_some, not_true_eq_false, if_false,
+      ok_bind, Option.map_some]
+    by_cases hv : hasKey v row = true
+    · have hv' : v ∈ keys row := (mem_keys_iff v row).2 hv
+      have hd' : hasKey m st.metrics = false := by simpa using hd
+      simp [hasKey] at hv
+      simp [hv, hv', Py.setitem, insert_absent m v st.metrics hd', ok_bind, Except.mapError,
+        Except.map]
+    · have hv' : ¬ v ∈ keys row := fun h => hv ((mem_keys_iff v row).1 h)
+      simp [hasKey] at hv
+      simp [hv, hv', Py.raise, error_bind, Except.mapError, Except.map, Py.Exc.toErr]
+  · simp [Py.unpack2, Py.tryExcept, Py.raise, error_bind, Except.mapError, Except.map, Py.Exc.toErr]
+
+theorem parse_fold (l : List Str) (st : Code4.Self) :
+    (List.foldlM parseBody st l).mapError Py.Exc.toErr =
+      (Model.parseFields Model.V4.tables st.metrics l).map (fun m => { st with metrics := m }) := by
+  induction l generalizing st with
+  | nil => simp [List.foldlM, pure_ok, Model.parseFields, Except.mapError, Except.map]
+  | cons f l ih =>
+    rw [List.foldlM_cons]
+    simp only [Model.parseFields]
+    have hs := parse_step st f
+    cases hb : parseBody st f with
+    | error e =>
+      rw [hb] at hs
+      cases hp : Model.parseField Model.V4.tables st.metrics f with
+      | error e' =>
+        rw [hp] at hs
+        simp only [Except.mapError, Except.map, Except.error.injEq] at hs
+        simp [error_bind, Except.mapError, Except.map, hs]
+      | ok m' =>
+        rw [hp] at hs
+        simp [Except.mapError, Except.map] at hs
+    | ok s' =>
+      rw [hb] at hs
+      cases hp : Model.parseField Model.V4.tables st.metrics f with
+      | error e' =>
+        rw [hp] at hs
+        simp [Except.mapError, Except.map] at hs
+      | ok m' =>
+        rw [hp] at hs
+        simp only [Except.mapError, Except.map, Except.ok.injEq] at hs
+        subst hs
+        simp only [ok_bind, ih]
+
+theorem parse_vector_unfold (self : Code4.Self) :
+    Code4.parse_vector self = (do
+      let () ← (if (self.vector = c!"") then (do
+          Py.raise .malformed) else (do
+          pure ()))
+      let () ← (if (endsWithChar '/' self.vector = true) then (do
+          Py.raise .malformed) else (do
+          pure ()))
+      let () ← (if (¬ (startsWith c!"CVSS:4.0/" self.vector = true)) then (do
+          Py.raise .malformed) else (do
+          pure ()))
+      let fields ← Py.tryExcept (do
+          let fields : List Str := (List.drop 1 (splitOn '/' self.vector))
+          pure fields) .indexError (do
+          Py.raise .malformed)
+      let self ← List.foldlM parseBody self fields
+      pure self) := rfl
 
 end Aux
 
+/-- `parse_vector()` on a fresh object: same outcome class and same metric dict as the model's parser -/
+theorem parse_vector_eq (self : Code4.Self) (h : self.metrics = []) :
+    ((Code4.parse_vector self).mapError Py.Exc.toErr).map (fun x => (x.vector, x.metrics)) =
+      (Model.parseWithPrefix Model.V4.tables [Model.V4.pfx] self.vector).map (fun r => (self.vector, r.2)) := by
+  rw [Aux.parse_vector_unfold]
+  unfold Model.parseWithPrefix
+  by_cases h1 : self.vector = []
+  · simp [h1, Py.raise, Aux.error_bind, Except.mapError, Except.map, Py.Exc.toErr]
+  by_cases h2 : endsWithChar '/' self.vector = true
+  · simp [h1, h2, Py.raise, Aux.error_bind, Aux.ok_bind, Aux.pure_ok, Except.mapError, Except.map,
+      Py.Exc.toErr]
+  simp only [Model.V4.pfx]
+  by_cases h3 : startsWith c!"CVSS:4.0/" self.vector = true
+  · simp only [h1, h2, h3, if_false, if_true, not_true_eq_false, Aux.pure_ok, Aux.ok_bind, Py.tryExcept,
+      List.findIdx?_cons, List.findIdx?_nil, Bool.false_eq_true]
+    rw [Aux.parse_fold, h]
+    cases Model.parseFields Model.V4.tables [] (List.drop 1 (splitOn '/' self.vector)) <;> rfl
+  · simp [h1, h2, h3, Py.raise, Aux.error_bind, Aux.ok_bind, Aux.pure_ok, Except.mapError, Except.map,
+      Py.Exc.toErr, List.findIdx?_cons]
+
+/-- `check_mandatory()` -/
+theorem check_mandatory_eq (self : Code4.Self) :
+    (Code4.check_mandatory self).mapError Py.Exc.toErr = Model.checkMandatory Model.V4.tables self.metrics := by
+  have h := Aux.mand_fold self.metrics Gen.V4.mandatory []
+  simp only [List.nil_append] at h
+  unfold Code4.check_mandatory Model.checkMandatory
+  show ((List.foldlM (Aux.mandBody self.metrics) [] Gen.V4.mandatory >>=
+    fun v => _).mapError _) = _
+  rw [h]
+  simp only [Aux.ok_bind, Model.V4.tables]
+  by_cases hall : (Gen.V4.mandatory.all fun k => hasKey k self.metrics) = true
+  · have : List.filter (fun k => !hasKey k self.metrics) Gen.V4.mandatory = [] := by
+      simp only [List.filter_eq_nil_iff]
+      intro a ha
+      simp only [List.all_eq_true] at hall
+      simp [hall a ha]
+    simp [this, hall, Aux.pure_ok, Aux.ok_bind, Except.mapError]
+  · have : List.filter (fun k => !hasKey k self.metrics) Gen.V4.mandatory ≠ [] := by
+      intro h0
+      apply hall
+      simp only [List.filter_eq_nil_iff] at h0
+      simp only [List.all_eq_true]
+      intro a ha
+      simpa using h0 a ha
+    simp [this, hall, Aux.pure_ok, Aux.error_bind, Except.mapError, Py.raise, Py.Exc.toErr]
+
+/-- `add_missing_optional()`: the original dict is kept, Modified metrics inherit, defaults are filled in -/
+theorem add_missing_optional_eq (self : Code4.Self) :
+    (Code4.add_missing_optional self).toOption.map (fun s => (s.original_metrics, s.metrics)) =
+      (Model.V4.fillModified self.metrics Model.V4.modifiedMetrics).map
+        (fun m1 => (self.metrics, Model.V4.fillDefaults m1 Model.V4.defaultedMetrics)) := by
+  unfold Code4.add_missing_optional
+  show ((List.foldlM Aux.modBody { self with original_metrics := self.metrics }
+      Model.V4.modifiedMetrics >>= fun s1 =>
+    List.foldlM Aux.defBody s1 Model.V4.defaultedMetrics).toOption.map _) = _
+  rw [Aux.toOption_bind, Aux.mod_fold]
+  simp only [Aux.def_fold, Except.toOption]
+  cases Model.V4.fillModified self.metrics Model.V4.modifiedMetrics <;> rfl
+
+/-- `compute_severity()` once the score is set -/
+theorem compute_severity_eq (self : Code4.Self) (b : Rat) (h : self.base_score = some b) :
+    (Code4.compute_severity self).map (fun s => s.severity) = .ok (some (Model.V4.sevOf b)) := by
+  unfold Code4.compute_severity Model.V4.sevOf
+  simp only [h, Py.req, Aux.ok_bind, Aux.pure_ok, Model.V4.r]
+  by_cases h0 : b = 0
+  · subst h0
+    simp [Except.map]
+  have e0 : (mkRat 0 1 : Rat) = 0 := by decide
+  simp only [e0, Option.some.injEq, if_neg h0]
+  by_cases h1 : b ≤ mkRat 39 10
+  · simp [h1, Except.map]
+  by_cases h2 : b ≤ mkRat 69 10
+  · simp [h1, h2, Except.map]
+  by_cases h3 : b ≤ mkRat 89 10
+  · simp [h1, h2, h3, Except.map]
+  · simp [h1, h2, h3, Except.map]
+
 /-- `clean_vector(output_prefix)` -/
 theorem clean_vector_eq (self : Code4.Self) (p : Bool) :
-    Code4.clean_vector self p = some (Model.V4.cleanOf self.original_metrics p) := by
+    Code4.clean_vector self p = .ok (Model.V4.cleanOf self.original_metrics p) := by
   have h := Aux.clean_fold self.original_metrics c!"X" (keys Gen.V4.abbrs) []
   simp only [List.nil_append] at h
   unfold Code4.clean_vector Model.V4.cleanOf
@@ -205,5 +536,190 @@ theorem clean_vector_eq (self : Code4.Self) (p : Bool) :
     fun v => _) = _
   rw [h]
   cases p <;> rfl
+
+/-- the literal `*_levels` tables: same look-ups (entry order inside a dict literal is irrelevant) -/
+theorem levels_eq (k v : Str) :
+    (lookup k Code4.levels).bind (lookup v) = (lookup k Model.V4.levels).bind (lookup v) := by
+  rw [Aux.levels_tables_eq]
+
+theorem levels_keys_perm : (keys Code4.levels).Perm (keys Model.V4.levels) := by
+  have : keys Code4.levels = keys Model.V4.levels := by
+    simp [keys, Code4.levels, Model.V4.levels]
+  rw [this]
+
+theorem step_eq : Code4.step = Model.V4.r 1 10 := rfl
+
+/-- every one of the 14 severity distances is `X_levels[m(X)] - X_levels[max vector's X]` with the
+    metric's own table, in the model's order -/
+theorem distMetrics_eq : Code4.distMetrics = Model.V4.distMetrics := rfl
+
+
+/-- the model's JSON values inside the translation's (which also has `null`) -/
+def jOf : Model.JVal → Py.J
+  | .str s => .str s
+  | .num x => .num x
+
+namespace Aux
+
+def jm (d : Model.JObj) : List (Str × Py.J) := d.map (fun kv => (kv.1, jOf kv.2))
+
+theorem insert_jm (k : Str) (v : Model.JVal) (d : Model.JObj) :
+    insert k (jOf v) (jm d) = jm (insert k v d) := by
+  induction d with
+  | nil => rfl
+  | cons p r ih =>
+    obtain ⟨a, b⟩ := p
+    simp only [jm, List.map_cons, insert] at ih ⊢
+    by_cases hk : k = a
+    · simp [hk]
+    · simp [hk, ih]
+
+theorem strLt_eq (a b : Str) : Py.strLt a b = Model.strLt a b := by
+  induction a generalizing b with
+  | nil => cases b <;> rfl
+  | cons x xs ih =>
+    cases b with
+    | nil => rfl
+    | cons y ys => simp only [Py.strLt, Model.strLt, ih]
+
+theorem insertSorted_jm (kv : Str × Model.JVal) (d : Model.JObj) :
+    Py.insertSorted (kv.1, jOf kv.2) (jm d) = jm (Model.insertSorted kv d) := by
+  induction d with
+  | nil => rfl
+  | cons p r ih =>
+    simp only [jm, List.map_cons, Py.insertSorted, Model.insertSorted, strLt_eq] at ih ⊢
+    by_cases hk : Model.strLt kv.1 p.1 = true
+    · simp [hk]
+    · simp [hk, ih]
+
+theorem foldl_sorted_jm (l : Model.JObj) (acc : Model.JObj) :
+    List.foldl (fun acc kv => Py.insertSorted kv acc) (jm acc) (jm l) =
+      jm (List.foldl (fun acc kv => Model.insertSorted kv acc) acc l) := by
+  induction l generalizing acc with
+  | nil => rfl
+  | cons p r ih =>
+    simp only [jm, List.map_cons, List.foldl_cons] at ih ⊢
+    have := insertSorted_jm p acc
+    simp only [jm] at this
+    rw [this, ih]
+
+theorem sorted_jm (d : Model.JObj) : Py.sortedItems (jm d) = jm (Model.sortObj d) :=
+  foldl_sorted_jm d []
+
+def jsonBody (self : Code4.Self) : List (Str × Py.J) → Str → Py.M (List (Str × Py.J)) :=
+  fun (st : (List (Str × Py.J))) (metric : Str) => (do
+    let data := st
+    let us : Str → Py.M Str := fun text => (do
+        if (text = c!"Adjacent") then (do
+            pure c!"ADJACENT_NETWORK") else (do
+            pure (replaceChar ' ' '_' (replaceChar '-' '_' (Py.upper text)))))
+    let add_metric_to_data : List (Str × Py.J) → Str → Py.M (List (Str × Py.J)) := fun data metric => (do
+        let t1 ← Py.getitem metric Gen.V4.jsonKeys
+        let k : Str := t1
+        let t2 ← Code4.get_value_description self metric
+        let t3 ← us t2
+        let data : List (Str × Py.J) := Py.setitem k (Py.J.str t3) data
+        pure data)
+    let data ← add_metric_to_data data metric
+    pure data)
+
+theorem us_eq (t : Str) :
+    (if (t = c!"Adjacent") then (Except.ok c!"ADJACENT_NETWORK" : Py.M Str) else
+      (Except.ok (replaceChar ' ' '_' (replaceChar '-' '_' (Py.upper t))))) = .ok (Model.us3 t) := by
+  unfold Model.us3 Model.us2
+  split <;> rfl
+
+theorem json_step (self : Code4.Self) (d : Model.JObj) (m : Str) :
+    (jsonBody self (jm d) m).toOption =
+      match lookup m Gen.V4.jsonKeys, Model.V4.getDescription self.metrics m with
+      | some k, some ds => some (jm (insert k (.str (Model.us3 ds)) d))
+      | _, _ => none := by
+  unfold jsonBody
+  simp only []
+  have hg := get_value_description_eq self m
+  rcases Option.eq_none_or_eq_some (lookup m Gen.V4.jsonKeys) with hk | ⟨k, hk⟩
+  · rw [getitem_none hk, hk]
+    rfl
+  · rw [getitem_some hk, hk]
+    simp only [ok_bind]
+    cases hd : Code4.get_value_description self m with
+    | error e =>
+      rw [hd] at hg
+      simp only [Except.toOption] at hg
+      rw [← hg]
+      rfl
+    | ok ds =>
+      rw [hd] at hg
+      simp only [Except.toOption] at hg
+      rw [← hg]
+      simp only [ok_bind, us_eq, pure_ok, Py.setitem, Except.toOption]
+      exact congrArg some (insert_jm k (.str (Model.us3 ds)) d)
+
+theorem json_fold (self : Code4.Self) (l : List Str) (d : Model.JObj) :
+    (List.foldlM (jsonBody self) (jm d) l).toOption =
+      (Model.addMetrics Gen.V4.jsonKeys (Model.V4.getDescription self.metrics) Model.us3 d l).map jm := by
+  induction l generalizing d with
+  | nil => rfl
+  | cons a l ih =>
+    rw [List.foldlM_cons, toOption_bind, json_step]
+    simp only [Model.addMetrics]
+    cases lookup a Gen.V4.jsonKeys with
+    | none => rfl
+    | some k =>
+      cases Model.V4.getDescription self.metrics a with
+      | none => rfl
+      | some ds => simp only [Option.bind_some, ih]
+
+theorem as_json_unfold (self : Code4.Self) (sort minimal : Bool) :
+    Code4.as_json self sort minimal = (do
+      let data ← List.foldlM (jsonBody self)
+        ([(c!"version", (Py.J.str c!"4")), (c!"vectorString", (Py.J.str self.vector))] : List (Str × Py.J))
+        Gen.V4.metricsOrder
+      let v4 ← Py.req self.base_score
+      let data : List (Str × Py.J) := Py.setitem c!"baseScore" (Py.J.num v4) data
+      let data : List (Str × Py.J) := Py.setitem c!"baseSeverity" (match self.severity with | some x => Py.J.str x | none => Py.J.null) data
+      let data ← (if (sort = true) then (do
+          let data : List (Str × Py.J) := (Py.sortedItems data)
+          pure data) else (do
+          pure data))
+      pure data) := rfl
+
+end Aux
+
+/-- `as_json(sort, minimal)` on a constructed object, all four option sets: same keys, same values, same
+    order (or both raise) -/
+theorem as_json_eq (self : Code4.Self) (o : Model.V4.Obj) (sort minimal : Bool)
+    (hv : o.vector = self.vector) (hm : o.metrics = self.metrics) (hb : self.base_score = some o.base)
+    (hs : self.severity = some o.severity) :
+    (Code4.as_json self sort minimal).toOption =
+      (Model.asJson4 o sort minimal).map (List.map (fun kv => (kv.1, jOf kv.2))) := by
+  rw [Aux.as_json_unfold]
+  have hmodel : Model.asJson4 o sort minimal =
+      (Model.addMetrics Gen.V4.jsonKeys (Model.V4.getDescription o.metrics) Model.us3
+        [(c!"version", .str c!"4"), (c!"vectorString", .str o.vector)] Gen.V4.metricsOrder).bind
+        (fun d1 => some (if sort = true then
+          Model.sortObj (insert c!"baseSeverity" (.str o.severity) (insert c!"baseScore" (.num o.base) d1))
+          else insert c!"baseSeverity" (.str o.severity) (insert c!"baseScore" (.num o.base) d1))) := rfl
+  rw [hmodel, hv, hm]
+  have hf := Aux.json_fold self Gen.V4.metricsOrder
+    [(c!"version", .str c!"4"), (c!"vectorString", .str self.vector)]
+  simp only [Aux.jm, List.map_cons, List.map_nil, jOf] at hf
+  rw [Aux.toOption_bind, hf]
+  cases Model.addMetrics Gen.V4.jsonKeys (Model.V4.getDescription self.metrics) Model.us3
+      [(c!"version", .str c!"4"), (c!"vectorString", .str self.vector)] Gen.V4.metricsOrder with
+  | none => rfl
+  | some d1 =>
+    have e1 : insert c!"baseScore" (Py.J.num o.base) (Aux.jm d1) =
+        Aux.jm (insert c!"baseScore" (.num o.base) d1) := Aux.insert_jm _ (.num o.base) d1
+    have e2 : insert c!"baseSeverity" (Py.J.str o.severity)
+        (Aux.jm (insert c!"baseScore" (.num o.base) d1)) =
+        Aux.jm (insert c!"baseSeverity" (.str o.severity) (insert c!"baseScore" (.num o.base) d1)) :=
+      Aux.insert_jm _ (.str o.severity) _
+    simp only [Option.map_some, Option.bind_some, hb, hs, Py.req, Aux.ok_bind, Aux.pure_ok,
+      Py.setitem, e1, e2]
+    cases sort
+    · rfl
+    · simp only [if_true, Except.toOption, Aux.sorted_jm]
+      rfl
 
 end Cvss.Props.CodeTie4
